@@ -1,5 +1,23 @@
 """Syntactic analyses over the generator AST (used by the generator only)."""
+import pats
 from pats import pattern_vars
+from gast import PRELUDE_ADTS
+
+_ADTS = dict(PRELUDE_ADTS)
+
+
+def set_adts(adt_table):
+    """ADT declarations of the module under analysis (needed to know which patterns are refutable)."""
+    global _ADTS
+    _ADTS = dict(adt_table)
+
+
+def binding_forced(pat, body):
+    """Does matching `pat` and then evaluating `body` certainly force the matched value?
+    (a refutable pattern has to inspect it; an irrefutable one only if a bound variable is used strictly)"""
+    if not pats.irrefutable(pat, _ADTS):
+        return True
+    return any(strict_occ(b, body) for b, _t in pattern_vars(pat))
 
 PARTIAL_BUILTINS = {
     "divide_integer", "mod_integer", "quotient_integer", "remainder_integer", "cons_bytearray", "index_bytearray",
@@ -141,7 +159,8 @@ def strict_occ(name, e):
     if k == "IfIs":
         return strict_occ(name, e.subj)
     if k == "When":
-        return strict_occ(name, e.subj)
+        alts, body0 = e.clauses[0]
+        return strict_occ(name, e.subj) and binding_forced(alts[0], body0)
     if k == "Let":
         bound = [n for n, _t in pattern_vars(e.pat)]
         if strict_occ(name, e.rhs) and any(strict_occ(b, e.body) for b in bound):
@@ -150,7 +169,8 @@ def strict_occ(name, e):
             return False
         return strict_occ(name, e.body)
     if k == "Expect":
-        if strict_occ(name, e.rhs):
+        cast = e.annot is not None and e.rhs.ty[0] == "Data" and e.annot[0] != "Data"
+        if strict_occ(name, e.rhs) and (cast or binding_forced(e.pat, e.body)):
             return True
         if any(name == n for n, _t in pattern_vars(e.pat)):
             return False
@@ -162,3 +182,25 @@ def strict_occ(name, e):
     if k == "Backpass":
         return strict_occ(name, e.fn) or any(strict_occ(name, a) for a in e.args)
     return any(strict_occ(name, c) for c in children(e))
+
+
+def let_invariants_ok(e, allow_hazard=False):
+    """generator invariants about `let`: the bound variable(s) are used, and used strictly when the
+    right-hand side may abort (otherwise the program sits in the erased/lazy-let grey zone)."""
+    if e.K == "Let":
+        bound = [n for n, _t in pattern_vars(e.pat)]
+        # `let d: Data = v  d` style wrappers are fine: the variable is the body
+        used = [b for b in bound if occurs(b, e.body)]
+        if not used:
+            return False
+        if may_abort(e.rhs) and not allow_hazard and not any(strict_occ(b, e.body) for b in used):
+            return False
+    if e.K == "When" and not allow_hazard and may_abort(e.subj):
+        alts, body0 = e.clauses[0]
+        if not binding_forced(alts[0], body0):
+            return False
+    if e.K == "Expect" and not allow_hazard and may_abort(e.rhs):
+        cast = e.annot is not None and e.rhs.ty[0] == "Data" and e.annot[0] != "Data"
+        if not cast and not binding_forced(e.pat, e.body):
+            return False
+    return all(let_invariants_ok(c, allow_hazard) for c in children(e))
